@@ -129,16 +129,19 @@ def run_mono(case, ctx):
                         iw = wav.index(w)
                         if t['names'] != order:
                             fail('%s: %s rows %r, parameter-table order is %r' % (what, fn, t['names'], order), 'c16:row_order')
+                        aidx = convpkg.stored_ap_index(pkg)
                         if pkg['apertures'] is not None:
-                            if t['apertures'] is None or any(abs(a - b) > 1e-12 * b for a, b in zip(t['apertures'], pkg['apertures'])):
+                            if t['apertures'] is None or len(t['apertures']) != nap or \
+                                    any(abs(a - pkg['apertures'][aidx[p_]]) > 1e-12 * a for p_, a in enumerate(t['apertures'])):
                                 fail('%s: %s apertures %r' % (what, fn, t['apertures']), 'c16:apertures')
                         for row, name in enumerate(t['names']):
                             m = names.index(name)
-                            for a in range(nap):
+                            for p_ in range(nap):
+                                a = aidx[p_]
                                 wf, we = pkg['flux'][m][a][iw], pkg['err'][m][a][iw]
-                                if abs(t['flux'][row][a] - wf) > 1e-12 * abs(wf) or abs(t['err'][row][a] - we) > 1e-12 * abs(we):
+                                if abs(t['flux'][row][p_] - wf) > 1e-12 * abs(wf) or abs(t['err'][row][p_] - we) > 1e-12 * abs(we):
                                     fail('%s: %s row %s aperture %d holds %r +- %r, the SED of %s at %r micron has %r +- %r' % (
-                                        what, fn, name, a, t['flux'][row][a], t['err'][row][a], name, w, wf, we), 'c16:wrong_cell')
+                                        what, fn, name, a, t['flux'][row][p_], t['err'][row][p_], name, w, wf, we), 'c16:wrong_cell')
                     # the returned table names exactly those files
                     tw = [float(x) for x in u.Quantity(table['wav']).to(u.micron).value] if hasattr(table['wav'], 'unit') and table['wav'].unit is not None \
                         else [float(x) for x in table['wav']]
